@@ -1,7 +1,7 @@
 #!/usr/bin/env python3
 """Checker self-validation: applies each mutant to a scratch copy of /repo (outside /repo and
 /verif), runs the named checks against it and requires the expected rule to fire; benign
-edits must stay silent. Usage: tools/selftest.py [name-substring ...] [--props C04,C05]"""
+edits must stay silent. Usage: tools/selftest.py [name-substring ...] [--props=C04,C05] [--workers=N]"""
 import json
 import os
 import shutil
@@ -15,9 +15,74 @@ from mutants import MUTANTS, BENIGN  # noqa: E402
 
 
 def run_check(prop, repo):
-    env = dict(os.environ, RSAV_REPO=repo, RSAV_OUT_DIR=os.path.join(os.path.dirname(repo), "out"))   # reports/evidence of mutant runs go to the scratch dir
+    env = dict(os.environ, RSAV_REPO=repo, RSAV_OUT_DIR=os.path.join(os.path.dirname(repo), "out"), RSAV_TARGET_DIR=os.path.join(os.path.dirname(repo), "target"))   # reports/evidence of mutant runs go to the scratch dir
     r = subprocess.run([os.path.join(VERIF, "check"), prop], cwd=VERIF, env=env, stdout=subprocess.PIPE, stderr=subprocess.STDOUT, text=True)
     return r.returncode, r.stdout
+
+
+def one(m, repo, all_props, props_filter):
+    """Applies one edit to the scratch copy `repo`, runs the checks, restores the copy. Returns (lines, failures)."""
+    lines, failures = [], []
+    if m.get("base"):
+        # the edit is made on top of a behaviour-preserving refactoring from benign/: the generalised rules must still
+        # report the mutation in the refactored form of the code
+        r = subprocess.run(["patch", "-p1", "-s", "-i", os.path.join(VERIF, m["base"])], cwd=repo, stdout=subprocess.PIPE, stderr=subprocess.STDOUT, text=True)
+        if r.returncode != 0:
+            return ["SKIP %-32s base patch does not apply" % m["name"]], [(m["name"], "base patch does not apply: %s" % r.stdout[-200:])]
+        try:
+            return _one(m, repo, all_props, props_filter)
+        finally:
+            subprocess.run(["patch", "-p1", "-s", "-R", "-i", os.path.join(VERIF, m["base"])], cwd=repo, stdout=subprocess.PIPE, stderr=subprocess.STDOUT)
+    return _one(m, repo, all_props, props_filter)
+
+
+def _one(m, repo, all_props, props_filter):
+    lines, failures = [], []
+    p = os.path.join(repo, m["file"])
+    src = open(p).read()
+    if m["old"] not in src:
+        return ["SKIP %-32s pattern not found" % m["name"]], [(m["name"], "pattern not found in %s" % m["file"])]
+    new = src.replace(m["old"], m["new"]) if m.get("all") else src.replace(m["old"], m["new"], 1)
+    open(p, "w").write(new)
+    extra_saved = []
+    for (f2, o2, n2) in m.get("also", []):
+        p2 = os.path.join(repo, f2)
+        s2 = open(p2).read() if p2 != p else new
+        if o2 not in s2:
+            lines.append("SKIP-also %s pattern not found in %s" % (m["name"], f2))
+        extra_saved.append((p2, open(p2).read()))
+        open(p2, "w").write(s2.replace(o2, n2) if m.get("all") else s2.replace(o2, n2, 1))
+    try:
+        if m.get("benign"):
+            props = [x for x in all_props if not props_filter or x in props_filter]
+            for pr in props:
+                rc, out = run_check(pr, repo)
+                if rc != 0:
+                    failures.append((m["name"], "benign edit raised an alarm in %s:\n%s" % (pr, out[-600:])))
+                    lines.append("FAIL %-32s %s alarm on benign edit" % (m["name"], pr))
+                else:
+                    lines.append("ok   %-32s %s silent" % (m["name"], pr))
+        else:
+            for pr, rule in m["expect"].items():
+                if props_filter and pr not in props_filter:
+                    continue
+                if pr not in all_props:
+                    continue
+                rc, out = run_check(pr, repo)
+                hit = rc == 1 and ("rule %s" % rule) in out
+                if "extraction failed" in out:
+                    failures.append((m["name"], "mutant does not compile"))
+                    lines.append("FAIL %-32s does not compile" % m["name"])
+                elif not hit:
+                    failures.append((m["name"], "%s did not report %s:\n%s" % (pr, rule, out[-800:])))
+                    lines.append("FAIL %-32s %s expected %s" % (m["name"], pr, rule))
+                else:
+                    lines.append("ok   %-32s %s -> %s" % (m["name"], pr, rule))
+    finally:
+        for p2, orig in extra_saved:
+            open(p2, "w").write(orig)
+        open(p, "w").write(src)
+    return lines, failures
 
 
 def main():
@@ -27,60 +92,39 @@ def main():
         if a.startswith("--props"):
             props_filter = set(a.split("=", 1)[1].split(","))
     all_props = sorted(f[:-3].upper() for f in os.listdir(os.path.join(VERIF, "engine", "rules")) if f.startswith("c") and f[1:3].isdigit())
+    workers = 1
+    for a in sys.argv[1:]:
+        if a.startswith("--workers="):
+            workers = int(a.split("=", 1)[1])
     scratch = tempfile.mkdtemp(prefix="rsav-selftest-")
-    repo = os.path.join(scratch, "repo")
     failures = []
+    todo = [m for m in MUTANTS + [dict(b, benign=True) for b in BENIGN] if not args or any(a in m["name"] for a in args)]
+    import concurrent.futures as cf
+    import threading
+    lock = threading.Lock()
+    free = []
     try:
-        subprocess.check_call(["rsync", "-a", "--exclude", "target", "--exclude", ".git", "/repo/", repo + "/"])
-        for m in MUTANTS + [dict(b, benign=True) for b in BENIGN]:
-            if args and not any(a in m["name"] for a in args):
-                continue
-            p = os.path.join(repo, m["file"])
-            src = open(p).read()
-            if m["old"] not in src:
-                failures.append((m["name"], "pattern not found in %s" % m["file"]))
-                print("SKIP %-32s pattern not found" % m["name"])
-                continue
-            new = src.replace(m["old"], m["new"]) if m.get("all") else src.replace(m["old"], m["new"], 1)
-            open(p, "w").write(new)
-            extra_saved = []
-            for (f2, o2, n2) in m.get("also", []):
-                p2 = os.path.join(repo, f2)
-                s2 = open(p2).read() if p2 != p else new
-                if o2 not in s2:
-                    print("SKIP-also %s pattern not found in %s" % (m["name"], f2))
-                extra_saved.append((p2, open(os.path.join("/repo", f2)).read()))
-                open(p2, "w").write(s2.replace(o2, n2) if m.get("all") else s2.replace(o2, n2, 1))
+        for k in range(workers):
+            repo = os.path.join(scratch, "w%d" % k, "repo")
+            os.makedirs(os.path.dirname(repo))
+            subprocess.check_call(["rsync", "-a", "--exclude", "target", "--exclude", ".git", "/repo/", repo + "/"])
+            free.append(repo)
+
+        def job(m):
+            with lock:
+                repo = free.pop()
             try:
-                if m.get("benign"):
-                    props = [x for x in all_props if not props_filter or x in props_filter]
-                    for pr in props:
-                        rc, out = run_check(pr, repo)
-                        if rc != 0:
-                            failures.append((m["name"], "benign edit raised an alarm in %s:\n%s" % (pr, out[-600:])))
-                            print("FAIL %-32s %s alarm on benign edit" % (m["name"], pr))
-                        else:
-                            print("ok   %-32s %s silent" % (m["name"], pr))
-                else:
-                    for pr, rule in m["expect"].items():
-                        if props_filter and pr not in props_filter:
-                            continue
-                        if pr not in all_props:
-                            continue
-                        rc, out = run_check(pr, repo)
-                        hit = rc == 1 and ("rule %s" % rule) in out
-                        if "extraction failed" in out:
-                            failures.append((m["name"], "mutant does not compile"))
-                            print("FAIL %-32s does not compile" % m["name"])
-                        elif not hit:
-                            failures.append((m["name"], "%s did not report %s:\n%s" % (pr, rule, out[-800:])))
-                            print("FAIL %-32s %s expected %s" % (m["name"], pr, rule))
-                        else:
-                            print("ok   %-32s %s -> %s" % (m["name"], pr, rule))
+                lines, fails = one(m, repo, all_props, props_filter)
             finally:
-                for p2, orig in extra_saved:
-                    open(p2, "w").write(orig)
-                open(p, "w").write(src)
+                with lock:
+                    free.append(repo)
+            with lock:
+                failures.extend(fails)
+                for ln in lines:
+                    print(ln)
+                sys.stdout.flush()
+        with cf.ThreadPoolExecutor(max_workers=workers) as ex:
+            list(ex.map(job, todo))
     finally:
         shutil.rmtree(scratch, ignore_errors=True)
     print("\n%d failure(s)" % len(failures))
